@@ -90,6 +90,26 @@ def run(ctx):
                     s = [(-1.0 - j if c == "float" else -1 - j) for j in range(len(msk))]
                     calls.append({"fn": "w%d" % k, "args": {"v": mk(k), "s": s if len(msk) > 1 else s[0], "other": mk(k + 1)}})
                 progs.append(("swizzle-write", m, calls))
+    # ---- matrices as storage: every row of a matrix is storage of its own, however the matrix came about (declared without initialiser, built from one
+    # vector used for every row, copied): write one element or one row, return the whole matrix (or the copy taken before)
+    for n in (3, 4):         # float3x3 and float4x4 are the matrix types the language has
+        vt, mt = "float%d" % n, "float%dx%d" % (n, n)
+        rowv = [1.5 + k for k in range(n)]; qv = [-10.0 - k for k in range(n)]
+        shapes_ = []
+        for origin in ("default", "same-row", "copy"):
+            decl = {"default": [Decl(mt, "m")], "same-row": [Decl(mt, "m", Ctor(mt, [V("r")] * n))],
+                    "copy": [Decl(mt, "m0", Ctor(mt, [V("r")] * n)), Decl(mt, "m", V("m0"))]}[origin]
+            keep = V("m0") if origin == "copy" else None
+            for wk, write in (("element", [ES(A(Idx(Idx(V("m"), I(n - 1)), I(0)), V("s")))]),
+                              ("row", [ES(A(Idx(V("m"), I(0)), V("q")))]),
+                              ("row-then-element", [ES(A(Idx(V("m"), I(1)), V("q"))), ES(A(Idx(Idx(V("m"), I(1)), I(n - 1)), V("s")))]),
+                              ("dynamic-element", [ES(A(Idx(Idx(V("m"), V("i")), V("i")), V("s")))])):
+                shapes_.append(("%s-%s" % (origin, wk), decl + write + [Ret(V("m"))]))
+                if keep is not None:
+                    shapes_.append(("%s-%s-original" % (origin, wk), decl + write + [Ret(keep)]))
+        for k, (nm, body) in enumerate(shapes_):
+            m = Module([Func("f", [Arg(vt, "r"), Arg(vt, "q"), Arg("float", "s"), Arg("int", "i")], mt, Block(body), export=True)])
+            progs.append(("matrix-storage", m, [{"fn": "f", "args": {"r": rowv, "q": qv, "s": 77.0, "i": i_}} for i_ in (0, n - 1)]))
     # ---- random programs over vectors, matrices, arrays of vectors, structs with vector members
     g = genvec.VGen(rng)
     for k in range(120 if quick else 3000):
